@@ -8,12 +8,18 @@ package http2
 //                          refresh policy, and panics instead of wrapping when the window would exceed 2^31-1
 //   VerifC10_dataStep      one DATA frame through the real processFrameFromReader on a hand-built conn from an arbitrary
 //                          valid (conn, stream) window state, in every stream situation: every byte of Length is
-//                          either still charged and sitting in the body pipe, or back in avail+unsent
+//                          either still charged and sitting in the body pipe, or back in avail+unsent - and, seen
+//                          from the PEER, the window it knew minus Length plus the WINDOW_UPDATE increments that
+//                          reach the wire is the window the server enforces (a frame dropped without take+refund
+//                          balances the server's books but leaves the peer's window short)
 // Shape B:
 //   VerifC10_ledger        bounded history on the hand-built conn (real initial windows), events from
 //                          {DATA on the stream (padding, END_STREAM), DATA on a closed stream, handler Read, handler
 //                          Body.Close, peer RST_STREAM, handler finishing the response}; ledger kept from the PEER's
 //                          point of view:   peerWindow + inflow.unsent + bytes still owed (in the pipe) == configured
+//                          Timing dimension: the frame writer may stay busy across events (slow peer), so that
+//                          WINDOW_UPDATEs, the server's own RST_STREAM (resetQueued, stream still registered) and the
+//                          final DATA frame wait in the write scheduler while more frames / handler calls arrive.
 //
 // KNOWN FINDING reached by VerifC10_ledger (key C10-server-read-after-closestream, repro/C10): closeStream refunds
 // the bytes buffered in the body pipe and leaves them readable; a handler Read afterwards refunds them again.
@@ -23,6 +29,9 @@ package http2
 //   server.go processData closed-body refund Length-wrote -> len(data)-wrote  VerifC10_dataStep "conn credit: Length = returned + held"
 //   server.go closeStream refund of p.Len() dropped                          VerifC10_ledger "conn ledger" (a plain VIOLATION: the
 //                                                                            known-finding escape does not mask other ledger errors)
+//   server.go processData: resetQueued early return hoisted above take/sendWindowUpdate (seed C10-D)
+//                                                                            VerifC10_dataStep and VerifC10_ledger "conn: window
+//                                                                            enforced == window the peer knows"
 
 import "math"
 
@@ -148,8 +157,13 @@ func VerifC10_dataStep() {
 	end := vfBool("END_STREAM")
 
 	c10frame(sc, h2sDataFrame(id, length, end, data))
-	h2sDrain(sc)
-	_ = c
+	// The peer's view: it knew the windows the server enforces (precondition), spent Length on the frame, and gets
+	// back exactly the WINDOW_UPDATE increments that reach the wire.
+	gConn, gSt := c0.avail-int32(length), s0.avail
+	if variant <= 2 {
+		gSt -= int32(length)
+	}
+	c10wire(sc, c, &gConn, &gSt)
 
 	held := int64(0)
 	closed := st == nil || st.state == stateClosed
@@ -160,6 +174,12 @@ func VerifC10_dataStep() {
 	// stream is back in avail+unsent.
 	vfAssert(int64(sc.inflow.avail)+int64(sc.inflow.unsent)+held == int64(c0.avail)+int64(c0.unsent), "conn credit: Length = returned + held")
 	vfAssert(h2sInflowInv(sc.inflow), "Inv(conn)")
+	// ... and it is back where the PEER can see it: what is not batched in unsent was announced on the wire (a
+	// refund that only exists in the server's books, or a frame dropped without one, leaves the peer's window short)
+	vfAssert(gConn == sc.inflow.avail, "conn: window enforced == window the peer knows (Length - announced WINDOW_UPDATEs)")
+	if st != nil && !closed {
+		vfAssert(gSt == st.inflow.avail, "stream: window enforced == window the peer knows")
+	}
 	switch variant {
 	case 0:
 		vfAssert(held == int64(d), "open stream: data is held in the pipe")
@@ -206,6 +226,8 @@ func VerifC10_ledger() {
 	excess := int32(0)   // bytes read by the handler after closeStream had already refunded them (the known finding)
 	clean := true        // stream-level ledger is asserted while nothing unusual happened to the stream
 	wasClosed := false
+	finished := false // the handler has queued its final END_STREAM frame
+	stalls := 0
 
 	for step := 0; step < 3; step++ {
 		ev := 0
@@ -283,12 +305,29 @@ func VerifC10_ledger() {
 			clean = false
 			vfReach("peer RST_STREAM")
 		case 5: // handler finishes the response: final DATA frame with END_STREAM enters through the serve loop
-			vfAssume(!wasClosed && !st.resetQueued && st.state != stateHalfClosedLocal)
+			vfAssume(!wasClosed && !st.resetQueued && st.state != stateHalfClosedLocal && !finished)
+			finished = true
 			sc.writeFrame(FrameWriteRequest{write: &writeData{1, nil, true}, stream: st, done: make(chan error, 1)})
 			clean = false
 			vfReach("response finished")
 		}
-		c10wire(sc, c, &gConn, &gSt)
+		// Slow peer: the frame writer may still be busy (asynchronous flush in flight: the peer is not reading)
+		// when the next event arrives. Everything the server wants to send meanwhile - WINDOW_UPDATEs, its own
+		// RST_STREAM (st.resetQueued stays true and the stream stays in sc.streams), the final DATA frame - queues
+		// up in the write scheduler, and the peer's view is not refreshed. The last step always lets the writer
+		// finish, and the ledger is checked whenever the writer has caught up.
+		stalled := false
+		if step < 2 && sc.writingFrame {
+			stalled = vfChoice("writer-still-busy", 2) == 1
+		}
+		if stalled {
+			stalls++
+			if st.resetQueued && !wasClosed && st.state != stateClosed {
+				vfReach("own RST_STREAM queued behind a busy writer")
+			}
+		} else {
+			c10wire(sc, c, &gConn, &gSt)
+		}
 		if st.state == stateClosed && !wasClosed {
 			// closeStream ran in this step: it returned what was buffered (and says so by its WINDOW_UPDATE / unsent)
 			wasClosed = true
@@ -300,11 +339,15 @@ func VerifC10_ledger() {
 		if !wasClosed {
 			vfAssert(int(owed) == st.body.Len(), "owed bytes are exactly the unread bytes of the pipe")
 		}
+		vfAssert(h2sInflowInv(sc.inflow), "Inv(conn) along the history")
+		if stalled {
+			continue // the peer has not been told yet: its view (gConn, gSt) is stale until the writer catches up
+		}
+		vfAssert(!sc.writingFrame, "writer caught up")
 		vfAssert(gConn == sc.inflow.avail, "conn: window enforced == window the peer knows")
 		vfAssertKF(int64(gConn)+int64(sc.inflow.unsent)+int64(owed) == int64(wc),
 			"conn ledger: peer window + batched + owed == configured", c10KF,
 			vfAnd(excess > 0, int64(gConn)+int64(sc.inflow.unsent)+int64(owed) == int64(wc)+int64(excess)))
-		vfAssert(h2sInflowInv(sc.inflow), "Inv(conn) along the history")
 		if clean {
 			vfAssert(gSt == st.inflow.avail, "stream: window enforced == window the peer knows")
 			vfAssert(int64(gSt)+int64(st.inflow.unsent)+int64(owed) == int64(ws), "stream ledger")
@@ -318,5 +361,6 @@ func VerifC10_ledger() {
 	vfObserve("avail", uint64(uint32(sc.inflow.avail)))
 	vfObserve("unsent", uint64(uint32(sc.inflow.unsent)))
 	vfObserve("owed", uint64(uint32(owed)))
+	vfObserve("stalls", uint64(stalls))
 	vfReach("end")
 }
